@@ -101,6 +101,9 @@ type State struct {
 	inl      *inlineFrame
 	panicked bool
 	memo     map[string]Val
+	// a panic is being unwound on this path: deferred calls run, recover() returns non-nil
+	recovering bool
+	recovered  bool
 }
 
 type inlineFrame struct {
@@ -136,6 +139,7 @@ func (st *State) clone() *State {
 	}
 	n.defers = append([]deferred(nil), st.defers...)
 	n.trace = append([]int(nil), st.trace...)
+	n.recovering, n.recovered = st.recovering, st.recovered
 	return n
 }
 
